@@ -84,7 +84,7 @@ var (
 	unbound     atomic.Int64
 )
 
-func goid() uint64 {
+func slowGoid() uint64 {
 	var buf [40]byte
 	n := runtime.Stack(buf[:], false)
 	// "goroutine 123 [running]:..."
